@@ -1,7 +1,9 @@
 // Native (unscheduled) sessions with the genuine std::thread: sensor runs for C11
 // under ThreadSanitizer, with seeded pacing of the application thread.
 //   drv_native stress <dir> <seed> <sessions>
+//   drv_native pair <dir> <seed> <rounds>      three sessions at the same time, compared with the same sessions alone
 #include <chrono>
+#include <fstream>
 #include <random>
 #include <thread>
 #include <unistd.h>
@@ -20,62 +22,123 @@ static void pace(std::mt19937_64 & rng, int mode) {
     }
 }
 
+struct SessionResult {
+    long objects = 0, bad = 0;
+    uint64_t hash = 0;          // FNV of the written file's bytes
+    long size = 0;
+};
+
+// one write session followed by one read session; the CONTENT depends only on contentSeed, the pacing on paceSeed
+static SessionResult session(unsigned long contentSeed, unsigned long paceSeed, const std::string & fn, long scale) {
+    SessionResult r;
+    std::mt19937_64 rng(contentSeed), prng(paceSeed);
+    int wmode = (int) (prng() % 4), rmode = (int) (prng() % 4);
+    long n = (50 + (long) (rng() % 400)) * scale;
+    uint32_t csize = (uint32_t[]) {512, 4096, 0x20000, 0x30000}[rng() % 4];
+    long early = (rng() % 3 == 0 && scale == 1) ? (long) (rng() % (unsigned long) n) : -1;
+    {
+        File f;
+        f.setDefaultLogContainerSize(csize);
+        f.compressionLevel = (int) (rng() % 10);
+        f.open(fn.c_str(), std::ios_base::out);
+        for (long i = 1; i <= n; i++) {
+            if (i % 5 == 0) {
+                auto * t = new AppText;
+                t->objectTimeStamp = (uint64_t) i;
+                t->text.assign((size_t) (rng() % 3000), (char) ('a' + rng() % 26));
+                f.write(t);
+            } else {
+                auto * m = new CanMessage;
+                m->objectTimeStamp = (uint64_t) i;
+                m->id = (uint32_t) i;
+                f.write(m);
+            }
+            pace(prng, wmode);
+        }
+        f.close();
+    }
+    {
+        std::ifstream in(fn, std::ios::binary);
+        uint64_t h = 1469598103934665603ull;
+        char buf[65536];
+        while (in.read(buf, sizeof(buf)) || in.gcount() > 0) {
+            for (std::streamsize k = 0; k < in.gcount(); k++) { h ^= (uint8_t) buf[k]; h *= 1099511628211ull; }
+            r.size += (long) in.gcount();
+        }
+        r.hash = h;
+    }
+    {
+        File f;
+        f.open(fn.c_str(), std::ios_base::in);
+        long i = 0;
+        for (;;) {
+            if (early >= 0 && i >= early) break;
+            ObjectHeaderBase * o = f.read();
+            if (!o) break;
+            i++;
+            auto * h = dynamic_cast<ObjectHeader *>(o);
+            if (!h || (long) h->objectTimeStamp != i) r.bad++;
+            // the application owns the object: scribble over it, then delete it
+            if (h) h->objectTimeStamp = 0xdeadbeef;
+            o->objectType = ObjectType::UNKNOWN;
+            delete o;
+            r.objects++;
+            pace(prng, rmode);
+        }
+        if (early < 0 && i != n) r.bad++;
+        f.close();
+    }
+    unlink(fn.c_str());
+    return r;
+}
+
 int main(int argc, char ** argv) {
     if (argc < 5) return 2;
+    std::string mode = argv[1];
     std::string dir = argv[2];
     unsigned long seed = strtoul(argv[3], nullptr, 10);
     long sessions = atol(argv[4]);
     std::mt19937_64 rng(seed);
-    long objects = 0, bad = 0;
+    long objects = 0, bad = 0, differ = 0;
+    std::string first;
+    if (mode == "pair") {
+        // K File objects used at the same time by K application threads (each session from one thread): every session
+        // must write the bytes and deliver the objects it writes/delivers when it runs alone in the process
+        const int K = 3;
+        for (long s = 0; s < sessions; s++) {
+            unsigned long cs[K], ps[K];
+            SessionResult alone[K], together[K];
+            for (int k = 0; k < K; k++) { cs[k] = rng(); ps[k] = rng(); }
+            for (int k = 0; k < K; k++)
+                alone[k] = session(cs[k], ps[k], dir + "/pair_" + std::to_string((long) getpid()) + "_a" + std::to_string(k) + ".blf", 6);
+            std::vector<std::thread> th;
+            for (int k = 0; k < K; k++)
+                th.emplace_back([&, k] {
+                    together[k] = session(cs[k], ps[k] + 1, dir + "/pair_" + std::to_string((long) getpid()) + "_t" + std::to_string(k) + ".blf", 6);
+                });
+            for (auto & t : th) t.join();
+            for (int k = 0; k < K; k++) {
+                objects += together[k].objects;
+                bad += alone[k].bad + together[k].bad;
+                if (alone[k].hash != together[k].hash || alone[k].size != together[k].size) {
+                    differ++;
+                    if (first.empty())
+                        first = "session " + std::to_string(s) + "/" + std::to_string(k) + ": " + std::to_string(alone[k].size) + " bytes alone, "
+                            + std::to_string(together[k].size) + " bytes next to " + std::to_string(K - 1) + " other sessions (or different content)";
+                }
+            }
+        }
+        JObj o;
+        o.puts("driver", "native_pair").put("sessions", sessions * K).put("objects", objects).put("bad", bad).put("differ", differ);
+        if (!first.empty()) o.puts("first", first);
+        printf("RESULT %s\n", o.str().c_str());
+        return 0;
+    }
     for (long s = 0; s < sessions; s++) {
         std::string fn = dir + "/native_" + std::to_string((long) getpid()) + "_" + std::to_string(s) + ".blf";
-        int wmode = (int) (rng() % 4), rmode = (int) (rng() % 4);
-        long n = 50 + (long) (rng() % 400);
-        uint32_t csize = (uint32_t[]) {512, 4096, 0x20000, 0x30000}[rng() % 4];
-        long early = (rng() % 3 == 0) ? (long) (rng() % (unsigned long) n) : -1;
-        {
-            File f;
-            f.setDefaultLogContainerSize(csize);
-            f.compressionLevel = (int) (rng() % 10);
-            f.open(fn.c_str(), std::ios_base::out);
-            for (long i = 1; i <= n; i++) {
-                if (i % 5 == 0) {
-                    auto * t = new AppText;
-                    t->objectTimeStamp = (uint64_t) i;
-                    t->text.assign((size_t) (rng() % 3000), 'a');
-                    f.write(t);
-                } else {
-                    auto * m = new CanMessage;
-                    m->objectTimeStamp = (uint64_t) i;
-                    m->id = (uint32_t) i;
-                    f.write(m);
-                }
-                pace(rng, wmode);
-            }
-            f.close();
-        }
-        {
-            File f;
-            f.open(fn.c_str(), std::ios_base::in);
-            long i = 0;
-            for (;;) {
-                if (early >= 0 && i >= early) break;
-                ObjectHeaderBase * o = f.read();
-                if (!o) break;
-                i++;
-                auto * h = dynamic_cast<ObjectHeader *>(o);
-                if (!h || (long) h->objectTimeStamp != i) bad++;
-                // the application owns the object: scribble over it, then delete it
-                if (h) h->objectTimeStamp = 0xdeadbeef;
-                o->objectType = ObjectType::UNKNOWN;
-                delete o;
-                objects++;
-                pace(rng, rmode);
-            }
-            if (early < 0 && i != n) bad++;
-            f.close();
-        }
-        unlink(fn.c_str());
+        SessionResult r = session(rng(), rng(), fn, 1);
+        objects += r.objects;
+        bad += r.bad;
     }
     JObj o;
     o.puts("driver", "native_stress").put("sessions", sessions).put("objects", objects).put("bad", bad);
